@@ -56,6 +56,7 @@ func (fr *Frame) exec(in ssa.Instruction) {
 			fr.set(x, PtrV{Cell: c, Elem: elem})
 			return
 		}
+		delete(fr.ex.mapCells, c)
 		if z == nil {
 			fr.opaque(x, "alloc of unsupported type "+elem.String())
 			return
@@ -71,6 +72,14 @@ func (fr *Frame) exec(in ssa.Instruction) {
 				return // store into ignored (opaque) memory, e.g. varargs of fmt.Errorf
 			}
 			ex.oos("%s: store through non-local pointer at %s", shortName(fr.fn.String()), fr.pos(in))
+			return
+		}
+		if mv, isM := val.(MapV); isM && len(p.Path) == 0 {
+			// a locally made map assigned to a variable cell: the cell aliases the map
+			if fr.ex.mapCells == nil {
+				fr.ex.mapCells = map[*Cell]MapV{}
+			}
+			fr.ex.mapCells[p.Cell] = mv
 			return
 		}
 		if fv, isF := val.(FuncV); isF && len(p.Path) == 0 {
@@ -91,6 +100,9 @@ func (fr *Frame) exec(in ssa.Instruction) {
 				return
 			}
 			t = t2
+		}
+		if want := sortAtPath(p); want != nil && want != t.Sort && p.Cell.Name == "varargs" {
+			return // arguments of fmt.Errorf and friends are not modelled
 		}
 		if want := sortAtPath(p); want != nil && want != t.Sort {
 			ex.oos("%s: store sort mismatch at %s", shortName(fr.fn.String()), fr.pos(in))
@@ -222,7 +234,13 @@ func (fr *Frame) exec(in ssa.Instruction) {
 			return
 		}
 		c := z.Sort.Ctors[0]
-		fr.set(x, TV{UpdField(c, 3, z, TFalse), x.Type()})
+		cell := fr.cells[x]
+		if cell == nil {
+			cell = ex.newCell(x.Type(), "map")
+			fr.cells[x] = cell
+		}
+		fr.mem[cell] = UpdField(c, 3, z, TFalse)
+		fr.set(x, MapV{Cell: cell, Typ: x.Type()})
 	case *ssa.Lookup:
 		fr.execLookup(x)
 	case *ssa.MapUpdate:
@@ -290,6 +308,10 @@ func (fr *Frame) execUnOp(x *ssa.UnOp) {
 				fr.opaque(x, "load of unknown function value")
 				return
 			}
+			if mv, ok := fr.ex.mapCells[p.Cell]; ok && len(p.Path) == 0 {
+				fr.set(x, mv)
+				return
+			}
 			t := fr.load(p)
 			fr.set(x, TV{Typed(t, x.Type()), x.Type()})
 		case ValPtr:
@@ -343,6 +365,16 @@ func (fr *Frame) execBinOp(x *ssa.BinOp) {
 		if ia, ok := a.(IfaceV); ok && !isErrorType(ia.Typ) {
 			if ib, ok := b.(IfaceV); ok && ib.Dyn == nil {
 				eq = BoolC(ia.Dyn == nil)
+			}
+		}
+		if eq == nil && oka && okb && ta.Sort == tb.Sort && isSliceSort(ta.Sort) && !isString(x.X.Type()) {
+			// slices are only comparable with nil
+			if c, ok := x.Y.(*ssa.Const); ok && c.IsNil() {
+				eq = SliceIsNil(ta)
+				fr.ex.assume(fr.cur, Implies(eq, Eq(SliceLen(ta), IntC(0))))
+			} else if c, ok := x.X.(*ssa.Const); ok && c.IsNil() {
+				eq = SliceIsNil(tb)
+				fr.ex.assume(fr.cur, Implies(eq, Eq(SliceLen(tb), IntC(0))))
 			}
 		}
 		if eq == nil {
@@ -514,7 +546,7 @@ func (fr *Frame) execSlice(x *ssa.Slice) {
 		fr.safety(x, "bounds", And(Le(IntC(0), lo), Le(lo, hi), Le(hi, n)))
 		fr.set(x, TV{MkSlice(SortOf(x.Type()), Sub(hi, lo), lo, p.Root), x.Type()})
 	case TV:
-		if p.T.Sort.Kind == KDT && len(p.T.Sort.Ctors) == 1 && len(p.T.Sort.Ctors[0].Fields) == 3 {
+		if isSliceSort(p.T.Sort) {
 			n := SliceLen(p.T)
 			if hi == nil {
 				hi = n
@@ -626,7 +658,11 @@ func (fr *Frame) execMakeSlice(x *ssa.MakeSlice) {
 }
 
 func (fr *Frame) execLookup(x *ssa.Lookup) {
-	m, ok1 := fr.get(x.X).(TV)
+	mval := fr.get(x.X)
+	if mv, ok := mval.(MapV); ok {
+		mval = TV{fr.mem[mv.Cell], mv.Typ}
+	}
+	m, ok1 := mval.(TV)
 	k, ok2 := fr.term(fr.get(x.Index))
 	if !ok1 || !ok2 {
 		fr.opaque(x, "lookup on unsupported map/key")
@@ -654,6 +690,11 @@ func (fr *Frame) execMapUpdate(x *ssa.MapUpdate) {
 	// every alias.  Only maps stored in a local cell or made locally are supported:
 	// the update is recorded against the defining value.
 	mv := fr.get(x.Map)
+	var mapCell *Cell
+	if mm, ok := mv.(MapV); ok {
+		mapCell = mm.Cell
+		mv = TV{fr.mem[mm.Cell], mm.Typ}
+	}
 	m, ok1 := mv.(TV)
 	k, ok2 := fr.term(fr.get(x.Key))
 	v, ok3 := fr.term(fr.get(x.Value))
@@ -666,11 +707,17 @@ func (fr *Frame) execMapUpdate(x *ssa.MapUpdate) {
 	has := SelField(c, 0, m.T)
 	nm := MkCtor(c, Store(has, k, TTrue), Store(SelField(c, 1, m.T), k, v),
 		Ite(Select(has, k), SelField(c, 2, m.T), Add(SelField(c, 2, m.T), IntC(1))), TFalse)
-	// rebind the defining SSA value (maps made in this function are only reachable through it)
-	if _, isMake := x.Map.(*ssa.MakeMap); isMake {
-		fr.vals[x.Map] = TV{nm, m.Typ}
-		fr.mapVersion(x.Map, nm)
+	if mapCell != nil {
+		fr.mem[mapCell] = nm
 		return
+	}
+	// a map held in a local variable that is captured by a closure: the variable is a cell;
+	// write the updated map back to it (the cell is the only alias inside the verified function)
+	if ld, ok := x.Map.(*ssa.UnOp); ok && ld.Op == token.MUL {
+		if p, ok := fr.get(ld.X).(PtrV); ok && !p.Cell.Param {
+			fr.store(p, nm)
+			return
+		}
 	}
 	fr.ex.oos("%s: update of a map that is not a local make at %s", shortName(fr.fn.String()), fr.pos(x))
 }
@@ -721,7 +768,14 @@ func (fr *Frame) execTypeAssert(x *ssa.TypeAssert) {
 func (fr *Frame) execReturn(x *ssa.Return) {
 	var vals []Val
 	for _, r := range x.Results {
-		vals = append(vals, fr.get(r))
+		v := fr.get(r)
+		if sv, ok := v.(SliceV); ok && !fr.top {
+			// a slice of a callee-local array escapes: snapshot its contents
+			if t, ok := fr.term(sv); ok {
+				v = TV{t, sv.Typ}
+			}
+		}
+		vals = append(vals, v)
 	}
 	fr.rets = append(fr.rets, retInfo{guard: fr.cur, vals: vals, mem: fr.mem.clone()})
 }
